@@ -113,6 +113,9 @@ theorem kinds_mergeOne (c : LitCfg) (e : EqEnv) (first : Bool) (fields : Fields)
     · rename_i origInner
       have ho' : ∀ k ∈ origInner.kinds, k ∈ Ty.kindsFields fields := fun k hk => ho k (by simpa [Ty.kinds] using hk)
       obtain ⟨b1, _, h⟩ := bind_ok h
+      split at h
+      · simp only [pure, Except.pure] at h
+        injection h with h; subst h; exact fun k hk => .inl hk
       obtain ⟨b2, _, h⟩ := bind_ok h
       split at h
       · simp only [pure, Except.pure] at h
@@ -127,10 +130,18 @@ theorem kinds_mergeOne (c : LitCfg) (e : EqEnv) (first : Bool) (fields : Fields)
           · rename_i x hx; exact hU origInner x ho' (.inl hx) k h
           · exact hU origInner _ ho' (.inr rfl) k h
     · obtain ⟨b1, _, h⟩ := bind_ok h
-      obtain ⟨b2, _, h⟩ := bind_ok h
       split at h
       · simp only [pure, Except.pure] at h
         injection h with h; subst h; exact fun k hk => .inl hk
+      obtain ⟨b2, _, h⟩ := bind_ok h
+      split at h
+      · -- the incoming `Optional[T]` replaces the existing `T`
+        simp only [pure, Except.pure] at h
+        injection h with h; subst h
+        intro k hk
+        rcases kinds_set _ _ _ k hk with h | h
+        · exact .inl h
+        · exact .inr h
       · simp only [pure, Except.pure] at h
         injection h with h; subst h
         intro k hk
